@@ -39,10 +39,10 @@ SPDX_SNIPPET_INDICATOR = b"SPDX-SnippetBegin"
 
 _LOGGER = logging.getLogger(__name__)
 
-# Any sequence of comment terminators at the end of a line. The alternatives
-# are sorted, so that the pattern does not depend on set iteration order (and
-# thereby on PYTHONHASHSEED).
-_END_PATTERN = r"(?:{})*$".format(
+# Any sequence of comment terminators (and trailing blanks) at the end of a
+# line. The alternatives are sorted, so that the pattern does not depend on set
+# iteration order (and thereby on PYTHONHASHSEED).
+_END_PATTERN = r"(?:{})*[ \t]*$".format(
     "|".join(
         sorted(
             set(
